@@ -1130,6 +1130,20 @@ Proof.
   exact (batch_completion_lemma _ now c bc bthr outs tol x name f HI HK Hx Hfb Hopen).
 Qed.
 
+Lemma stamped_with_block_time_lemma :
+  forall (h : list step) (now c bc bthr : Z) (outs : list output) (tol : Z) (x : sctx) (name : Z) (f : feed),
+    run_wfb init h = true ->
+    let s := run init h in
+    get c (ctxs s) = Some x -> feed_by_ctx s c = Some (name, f) -> x_open x = true ->
+    x_bthr x <= Z.of_nat (length outs) ->
+    exists d rest, query_values (snd (do_sev s now (SDone c bc bthr outs tol))) name = (d, now) :: rest.
+Proof.
+  intros h now c bc bthr outs tol x name f Hwf s Hx Hfb Hopen Hmet.
+  destruct (one_value_per_successful_batch_lemma h now c bc bthr outs tol x name f Hwf Hx Hfb Hopen) as (_ & _ & Hq).
+  cbv zeta in Hq. fold s in Hq. rewrite Hq. destruct (x_bthr x <=? Z.of_nat (length outs)) eqn:E; [|lia].
+  eexists. eexists. reflexivity.
+Qed.
+
 (** everything else leaves every stored value alone, except that a successful edit trims *)
 Lemma values_change_only_by_batches_and_edits_lemma :
   forall (h : list step) (st : step) (n : Z),
